@@ -47,7 +47,9 @@ impl UserName {
     where
         S: AsRef<str>,
     {
-        let name = strings::opaque_string_prepapre(value.as_ref())?;
+        // The user name MUST have been processed using the OpaqueString profile:
+        // store the enforced (mapped and normalised) form, as the decoder does
+        let name = strings::opaque_string_enforce(value.as_ref())?;
         (name.len() < MAX_ENCODED_SIZE)
             .then(|| UserName(String::from(name.as_ref())))
             .ok_or_else(|| {
